@@ -84,6 +84,17 @@ MUTANTS = {
         ('write-from-bypasses-marking', 'src/transport/virtiofs/mod.rs', ".consume_for_write(count, |bufs| src.read_vectored_volatile(bufs))", ".consume_for_read(count, |bufs| src.read_vectored_volatile(bufs))"),
         ('read-to-marks', 'src/transport/mod.rs', ".consume_for_read(count, |bufs| dst.write_vectored_volatile(bufs))", ".consume_for_write(count, |bufs| dst.write_vectored_volatile(bufs))"),
     ],
+    'C20': [
+        ('async-fallocate-swap', 'src/api/server/async_io.rs', ".async_fallocate(ctx.context(), ctx.nodeid(), fh.into(), mode, offset, length)", ".async_fallocate(ctx.context(), ctx.nodeid(), fh.into(), mode, length, offset)"),
+        ('async-dispatch-fsync-to-fsyncdir', 'src/api/server/async_io.rs', "x if x == Opcode::Fsync as u32 => self.async_fsync(ctx).await,", "x if x == Opcode::Fsync as u32 => self.async_fsyncdir(ctx).await,"),
+        ('async-dispatch-setlkw-to-setlk', 'src/api/server/async_io.rs', "x if x == Opcode::Setlkw as u32 => self.setlkw(ctx),", "x if x == Opcode::Setlkw as u32 => self.setlk(ctx),"),
+        ('async-error-sign', 'src/api/server/async_io.rs', "            error: -err\n                .raw_os_error()", "            error: err\n                .raw_os_error()"),
+        ('async-read-len-without-header', 'src/api/server/async_io.rs', "len: (size_of::<OutHeader>() + count) as u32,", "len: count as u32,"),
+        ('async-write-owner-wrong-flags-word', 'src/api/server/async_io.rs', "let owner = if fuse_flags & WRITE_LOCKOWNER != 0 {", "let owner = if flags & WRITE_LOCKOWNER != 0 {"),
+        ('async-no-id-remap', 'src/api/server/async_io.rs', "        self.remap_ctx_ids(&mut ctx)?;\n", "\n"),
+        ('async-enosys-as-einval', 'src/api/server/async_io.rs', "ctx.async_reply_error(io::Error::from_raw_os_error(libc::ENOSYS))", "ctx.async_reply_error(io::Error::from_raw_os_error(libc::EINVAL))"),
+        ('async-commit-ungated', 'src/transport/fusedev/mod.rs', "        pub async fn async_commit(&mut self, other: Option<&Writer<'a, S>>) -> io::Result<usize> {\n            if !self.buffered {\n                return Ok(0);\n            }\n", "        pub async fn async_commit(&mut self, other: Option<&Writer<'a, S>>) -> io::Result<usize> {\n"),
+    ],
     'C06x': [],
     'C07': [
         ('index-shift-48', V, "const VFS_INDEX_SHIFT: u8 = 56;", "const VFS_INDEX_SHIFT: u8 = 48;"),
